@@ -16,6 +16,7 @@ from __future__ import annotations
 import importlib
 import sys
 import threading as _real_threading
+import time as _real_time
 import types
 from typing import Any, Callable, Iterable, Sequence
 
@@ -77,9 +78,79 @@ class _CoopLock:
         self.release()
 
 
+class _CoopCondition:
+    """threading.Condition over a cooperative lock: a scheduled thread that waits is *blocked* until a notify reaches it
+    (or, for a wait with a timeout, until every live thread is blocked: the timeout then expires); spurious wake-ups are not
+    produced, so code that fails to re-check its predicate is exposed only by the notifications the code itself sends"""
+
+    def __init__(self, sched: "LineSched", lock: Any = None):
+        self._sched = sched
+        self._lock = lock if lock is not None else _CoopLock(sched, True)
+        self._waiters: list[list] = []
+        self.acquire = self._lock.acquire
+        self.release = self._lock.release
+
+    def __enter__(self) -> bool:
+        return self._lock.acquire()
+
+    def __exit__(self, *a: Any) -> None:
+        self._lock.release()
+
+    def wait(self, timeout: float | None = None) -> bool:
+        w = getattr(_tls, "worker", None)
+        token = [False]
+        self._waiters.append(token)
+        depth, owner = self._lock._depth, self._lock._owner
+        self._lock._owner, self._lock._depth = None, 0
+        self._sched._released()
+        if w is None or self._sched._aborting:
+            end = None if timeout is None else _real_time.monotonic() + timeout
+            while not token[0] and (end is None or _real_time.monotonic() < end) and not (self._sched._aborting and w is not None):
+                _real_threading.Event().wait(0.0005)
+        else:
+            self._sched._yield("lock", "wait")
+            while not token[0]:
+                if w.giveup:
+                    # every live thread is blocked: a timed wait runs out, an untimed one would sleep for ever
+                    w.giveup = False
+                    if timeout is None:
+                        if token in self._waiters:
+                            self._waiters.remove(token)
+                        raise RuntimeError("deadlock: Condition.wait() without timeout was never notified and every other thread is blocked or done")
+                    break
+                if self._sched._aborting:
+                    break
+                self._sched._block_on_lock()
+        if token in self._waiters:
+            self._waiters.remove(token)
+        self._lock.acquire()
+        self._lock._depth = max(depth, 1)
+        return token[0]
+
+    def wait_for(self, predicate: Callable[[], Any], timeout: float | None = None) -> Any:
+        r = predicate()
+        while not r:
+            if not self.wait(timeout) and timeout is not None:
+                return predicate()
+            r = predicate()
+        return r
+
+    def notify(self, n: int = 1) -> None:
+        for token in self._waiters[:n]:
+            token[0] = True
+        del self._waiters[:n]
+        self._sched._released()
+
+    def notify_all(self) -> None:
+        self.notify(len(self._waiters))
+
+
 class _ThreadingShim:
     def __init__(self, sched: "LineSched"):
         self._sched = sched
+
+    def Condition(self, lock: Any = None) -> _CoopCondition:  # noqa: N802
+        return _CoopCondition(self._sched, lock)
 
     def Lock(self) -> _CoopLock:  # noqa: N802
         return _CoopLock(self._sched, False)
